@@ -108,42 +108,28 @@ func c12Confined(e c10Exec) (bool, string) {
 		}
 		return true, ""
 	case strings.HasPrefix(q, "SELECT "):
+		// semantic: whatever row of a small universe (every column ranging over the statement's arguments, two further
+		// values and NULL) the WHERE clause selects belongs to the shard
 		j := strings.Index(q, " WHERE ")
 		if j < 0 {
 			return false, "SELECT without WHERE"
 		}
 		where := q[j+len(" WHERE "):]
-		arg := 0
-		for _, term := range strings.Split(where, " OR ") {
-			n := strings.Count(term, "?")
-			ok := false
-			if i := strings.Index(term, " IN ("); i >= 0 {
-				if strings.TrimSpace(term[:i]) == "org_id" {
-					ok = true
-					for k := 0; k < n; k++ {
-						if !isOrg(e.args[arg+k]) {
-							ok = false
-						}
+		pred, err := c10ParseWhere(where, e.args)
+		if err != nil {
+			return false, "the statement cannot be analysed: " + err.Error()
+		}
+		values := []driver.Value{nil, int64(1), int64(2), "a", "zz"}
+		values = append(values, e.args...)
+		for _, id := range values {
+			for _, org := range values {
+				for _, name := range values {
+					row := map[string]driver.Value{"id": id, "org_id": org, "name": name}
+					if pred(row) && !isOrg(org) {
+						return false, fmt.Sprintf("the WHERE clause %q selects a row with org_id=%v (id=%v, name=%v)", where, org, id, name)
 					}
 				}
-			} else {
-				k := 0
-				for _, atom := range strings.Split(strings.TrimSuffix(strings.TrimPrefix(strings.TrimSpace(term), "("), ")"), " AND ") {
-					atom = strings.TrimSpace(atom)
-					if !strings.Contains(atom, "?") {
-						continue
-					}
-					col := strings.TrimSpace(strings.TrimRight(strings.TrimSuffix(strings.TrimSuffix(atom, "?"), "IS "), " ="))
-					if col == "org_id" && isOrg(e.args[arg+k]) {
-						ok = true
-					}
-					k++
-				}
 			}
-			if !ok {
-				return false, fmt.Sprintf("disjunct %q is not confined to org_id=%d", term, c12Org)
-			}
-			arg += n
 		}
 		return true, ""
 	}
@@ -238,6 +224,34 @@ func TestVerifSearch_C12_Sinks(t *testing.T) {
 			}
 			return err
 		})
+	}
+	// a caller-supplied WHERE (SelectOptions) is AND-ed with the checked filter as a whole: an OR inside it must not escape
+	for _, fc := range filters {
+		fc := fc
+		for _, w := range []struct {
+			where  string
+			values []interface{}
+		}{
+			{"name = ?", []interface{}{"c"}},
+			{"name = ? OR id = ?", []interface{}{"c", int64(3)}},
+			{"id = ? OR name = ? AND id = ?", []interface{}{int64(3), "c", int64(3)}},
+			{"(name = ? OR id = ?) AND id = ?", []interface{}{"c", int64(3), int64(3)}},
+		} {
+			w := w
+			distinct++
+			run(fmt.Sprintf("Query(%v, Where: %q)", fc.f, w.where), fc.comply, func() error {
+				var out []*c12Item
+				return db.Query(ctx, &out, fc.f, &SelectOptions{Where: w.where, Values: w.values})
+			})
+			run(fmt.Sprintf("QueryRow(%v, Where: %q)", fc.f, w.where), fc.comply, func() error {
+				var out *c12Item
+				err := db.QueryRow(ctx, &out, fc.f, &SelectOptions{Where: w.where, Values: w.values})
+				if err == sql.ErrNoRows {
+					return nil
+				}
+				return err
+			})
+		}
 	}
 	// two compliant and one non-compliant query racing into one batch: the non-compliant one fails, the statement stays confined
 	run("three concurrent batched queries, one outside the shard", true, func() error {
